@@ -184,7 +184,7 @@ class FixedMarginBusiness(Sector):
         self.LabourInputName = labour_input_name
         self.OutputName = output_name
         self.AddVariable('SUP_' + output_name, 'Supply of goods', '')
-        self.AddVariable('PROF', 'Profits', 'SUP_GOOD - DEM_' + labour_input_name)
+        self.AddVariable('PROF', 'Profits', 'SUP_' + output_name + ' - DEM_' + labour_input_name)
         # Declared here (and only defined in _GenerateEquations) so that the labour market finds
         # this demand whatever the order in which sectors were created.
         self.AddVariable('DEM_' + labour_input_name, 'Demand for labour', '')
